@@ -43,6 +43,7 @@ fn tstr<T: ToTokens>(t: &T) -> String {
 
 fn conv_ty(t: &Type, owner: &str) -> Ty {
     match t {
+        Type::Reference(r) if matches!(&*r.elem, Type::Path(p) if p.path.is_ident("T")) => Ty::Named("RefMut".into()),
         Type::Reference(r) => conv_ty(&r.elem, owner),
         Type::Tuple(tt) if tt.elems.is_empty() => Ty::Unit,
         Type::Tuple(tt) => Ty::Tup(tt.elems.iter().map(|e| conv_ty(e, owner)).collect()),
@@ -66,6 +67,11 @@ fn conv_ty(t: &Type, owner: &str) -> Ty {
                 "Result" => Ty::Res(Box::new(arg0())),
                 // a generic parameter bounded by AsIndex (`I`): the two accessor values
                 "I" => Ty::Named("AsIndex".into()),
+                // NonZero<usize> is its value (NonZero::new_unchecked is not in the translated fragment)
+                "NonZero" => Ty::Usize,
+                // the item types of the two mutable vector iterators
+                "Item" if owner == "IterVectorsMut" => Ty::Named("IterNthVectorMut".into()),
+                "Item" if owner == "IterNthVectorMut" => Ty::Named("RefMut".into()),
                 _ => Ty::Named(id),
             }
         }
@@ -97,6 +103,15 @@ struct Tr<'a> {
 
 fn fn_uses_es(f: &FnInfo) -> bool {
     tstr(&f.block).contains("size_of::<")
+}
+
+// functions of the pointer-level iterator machines: element size, alignment and the allocation bounds are parameters
+fn ptr_owner(owner: &str) -> bool {
+    owner == "IterVectorsMut" || owner == "IterNthVectorMut"
+}
+
+fn has_hook_cfg(attrs: &[Attribute]) -> bool {
+    attrs.iter().any(|a| tstr(a).contains("verif-hooks"))
 }
 
 impl<'a> Tr<'a> {
@@ -155,6 +170,9 @@ impl<'a> Tr<'a> {
             Expr::MethodCall(m) => {
                 let name = m.method.to_string();
                 match self.ty_of(&m.receiver, env) {
+                    Ty::Named(s) if s == "NonNull" && (name == "add" || name == "sub") => Ty::Named("NonNull".into()),
+                    Ty::Named(s) if s == "NonNull" && name == "addr" => Ty::Usize,
+                    Ty::Named(s) if s == "NonNull" && name == "as_mut" => Ty::Named("RefMut".into()),
                     Ty::Named(s) if s == "Vec" && name == "len" => Ty::Usize,
                     Ty::Named(s) if s == "Vec" && name == "is_empty" => Ty::Bool,
                     Ty::Named(s) if s == "AsIndex" => Ty::Usize,
@@ -170,6 +188,15 @@ impl<'a> Tr<'a> {
                 let p = tstr(&c.func);
                 if p.starts_with("size_of::<") {
                     return Ty::Usize;
+                }
+                if p == "NonNull::new_unchecked" || p == "NonNull::dangling" {
+                    return Ty::Named("NonNull".into());
+                }
+                if p == "without_provenance_mut" {
+                    return Ty::Named("RawPtr".into());
+                }
+                if p == "Some" {
+                    return Ty::Opt(Box::new(c.args.first().map_or(Ty::Unknown, |a| self.ty_of(a, env))));
                 }
                 if let Some((o, n)) = p.rsplit_once("::") {
                     let o = if o == "Self" { self.owner.clone() } else { o.split("::<").next().unwrap().split('<').next().unwrap().to_string() };
@@ -187,6 +214,10 @@ impl<'a> Tr<'a> {
                 _ => self.ty_of(&b.left, env),
             },
             Expr::Tuple(t) => Ty::Tup(t.elems.iter().map(|e| self.ty_of(e, env)).collect()),
+            Expr::Try(t) => match self.ty_of(&t.expr, env) {
+                Ty::Opt(a) | Ty::Res(a) => *a,
+                _ => Ty::Unknown,
+            },
             Expr::Match(m) => m.arms.first().map_or(Ty::Unknown, |a| self.ty_of(&a.body, env)),
             Expr::If(i) => self.block_ty(&i.then_branch.stmts, env),
             Expr::Block(b) => self.block_ty(&b.block.stmts, env),
@@ -219,7 +250,15 @@ impl<'a> Tr<'a> {
     }
     // the value the function finally returns
     fn finish(&self, v: String) -> String {
-        format!("Val {}", v)
+        if self.self_mut && v != "self" {
+            format!("Val (self, {})", v)
+        } else {
+            format!("Val {}", v)
+        }
+    }
+    fn mutates_self(stmts: &[Stmt]) -> bool {
+        let t: String = stmts.iter().map(tstr).collect();
+        t.contains("self.") && t.contains('=')
     }
 
     fn block(&mut self, stmts: &[Stmt], env: &mut Env, k: &mut dyn FnMut(&mut Self, String, &mut Env) -> String) -> String {
@@ -227,6 +266,18 @@ impl<'a> Tr<'a> {
             return k(self, "tt".into(), env);
         }
         let (s, rest) = stmts.split_first().unwrap();
+        // observation hooks compiled only with the verif-hooks feature are not part of the crate's behaviour
+        if let Stmt::Expr(e, _) = s {
+            let attrs: &[Attribute] = match e {
+                Expr::Call(c) => &c.attrs,
+                Expr::MethodCall(c) => &c.attrs,
+                Expr::Macro(c) => &c.attrs,
+                _ => &[],
+            };
+            if has_hook_cfg(attrs) {
+                return self.block(rest, env, k);
+            }
+        }
         match s {
             Stmt::Local(l) => {
                 let Some(init) = l.init.as_ref() else { return "(*UNSUPPORTED let without initialiser*)".into() };
@@ -252,6 +303,24 @@ impl<'a> Tr<'a> {
                         Some(x) => self.expr(x, env, &mut |me, v, _| me.finish(v)),
                         None => self.finish("tt".into()),
                     },
+                    // `if c { self.f = ..; } else { ..; self.g = ..; }`: both branches yield the updated `self`
+                    Expr::If(i)
+                        if self.self_mut
+                            && !tstr(&i.then_branch).contains("return")
+                            && (Self::mutates_self(&i.then_branch.stmts) || i.else_branch.as_ref().map_or(false, |(_, e)| tstr(e).contains("self."))) =>
+                    {
+                        self.expr(&i.cond, env, &mut |me, c, env| {
+                            let th = me.block(&i.then_branch.stmts, &mut env.clone(), &mut |_, _, _| "Val self".to_string());
+                            let el = match &i.else_branch {
+                                Some((_, e)) => match &**e {
+                                    Expr::Block(b) => me.block(&b.block.stmts, &mut env.clone(), &mut |_, _, _| "Val self".to_string()),
+                                    other => format!("(*UNSUPPORTED else branch {}*)", tstr(other)),
+                                },
+                                None => "Val self".to_string(),
+                            };
+                            format!("let* self := (if {} then {}\n    else {}) in\n  {}", c, th, el, me.block(rest, env, k))
+                        })
+                    }
                     Expr::If(i) if i.else_branch.is_none() => self.expr(&i.cond, env, &mut |me, c, env| {
                         // `if c { return x; }` guard
                         let th = me.block(&i.then_branch.stmts, &mut env.clone(), &mut |me2, v, _| me2.finish(v));
@@ -320,7 +389,9 @@ impl<'a> Tr<'a> {
     }
     fn call(&mut self, owner: &str, name: &str, args: Vec<String>, env: &mut Env, k: &mut dyn FnMut(&mut Self, String, &mut Env) -> String) -> String {
         let t = self.fresh("r");
-        let es = if self.callee_uses_es(owner, name) {
+        let es = if ptr_owner(owner) {
+            " es al base bytes"
+        } else if self.callee_uses_es(owner, name) {
             self.uses_es = true;
             " es"
         } else {
@@ -349,6 +420,10 @@ impl<'a> Tr<'a> {
             Expr::Block(b) => self.block(&b.block.stmts, env, k),
             Expr::Unary(u) if matches!(u.op, UnOp::Deref(_)) => self.expr(&u.expr, env, k),
             Expr::Unary(u) if matches!(u.op, UnOp::Not(_)) => self.expr(&u.expr, env, &mut |me, v, env| k(me, format!("(negb {})", v), env)),
+            Expr::Field(f) if matches!(f.member, Member::Unnamed(_)) => {
+                let m = tstr(&f.member);
+                self.expr(&f.base, env, &mut |me, b, env| k(me, format!("({} {})", if m == "0" { "fst" } else { "snd" }, b), env))
+            }
             Expr::Field(f) => {
                 let bt = self.ty_of(&f.base, env);
                 let s = if let Ty::Named(s) = bt { s } else { "UNKNOWN".into() };
@@ -378,8 +453,9 @@ impl<'a> Tr<'a> {
                     }
                 };
                 // fields in declaration order of the struct, whatever the order in the literal
-                let decl: Vec<String> = self.cx.structs.get(&name).map(|v| v.iter().map(|(n, _)| n.clone()).collect()).unwrap_or_default();
-                let mut fs: Vec<(String, &Expr)> = s.fields.iter().map(|f| (tstr(&f.member), &f.expr)).collect();
+                let decl: Vec<String> =
+                    self.cx.structs.get(&name).map(|v| v.iter().map(|(n, _)| n.clone()).filter(|n| n != "marker").collect()).unwrap_or_default();
+                let mut fs: Vec<(String, &Expr)> = s.fields.iter().map(|f| (tstr(&f.member), &f.expr)).filter(|(n, _)| n != "marker").collect();
                 if decl.len() != fs.len() || s.rest.is_some() {
                     return format!("(*UNSUPPORTED struct literal {}*)", name);
                 }
@@ -456,20 +532,45 @@ impl<'a> Tr<'a> {
             }
             Expr::Match(m) => {
                 let t = self.fresh("v");
+                let scrut_ty = self.ty_of(&m.expr, env);
                 self.expr(&m.expr, env, &mut |me, s, env| {
                     let arms: Vec<String> = m
                         .arms
                         .iter()
                         .map(|a| {
                             let p = tstr(&a.pat);
-                            let p = p.rsplit("::").next().unwrap().to_string();
-                            if a.guard.is_some() || !(p == "RowMajor" || p == "ColMajor") {
-                                return format!("| (*UNSUPPORTED match arm {}*) _ => Val tt", p);
+                            if a.guard.is_some() {
+                                return format!("| (*UNSUPPORTED match guard {}*) _ => Val tt", p);
                             }
-                            format!("| {} => {}", p, me.sub(&a.body, env))
+                            let last = p.rsplit("::").next().unwrap().to_string();
+                            if last == "RowMajor" || last == "ColMajor" || last == "None" {
+                                return format!("| {} => {}", last, me.sub(&a.body, env));
+                            }
+                            if let (Pat::TupleStruct(ts), Ty::Opt(inner)) = (&a.pat, &scrut_ty) {
+                                if tstr(&ts.path) == "Some" && ts.elems.len() == 1 {
+                                    if let Pat::Ident(id) = &ts.elems[0] {
+                                        let mut env2 = env.clone();
+                                        env2.insert(id.ident.to_string(), (**inner).clone());
+                                        return format!("| Some {} => {}", id.ident, me.sub(&a.body, &env2));
+                                    }
+                                }
+                            }
+                            format!("| (*UNSUPPORTED match arm {}*) _ => Val tt", p)
                         })
                         .collect();
                     format!("let* {} := (match {} with {} end) in\n  {}", t, s, arms.join(" "), k(me, t.clone(), env))
+                })
+            }
+            // an `e?` inside an expression (Option): None returns None from the function
+            Expr::Try(t) => {
+                let ity = self.ty_of(&t.expr, env);
+                if !matches!(ity, Ty::Opt(_)) {
+                    return format!("(*UNSUPPORTED ? at type {:?}*)", ity);
+                }
+                self.expr(&t.expr, env, &mut |me, v, env| {
+                    let x = me.fresh("o");
+                    let r = k(me, x.clone(), env);
+                    format!("match {} with\n  | Some {} => {}\n  | None => {} end", v, x, r, me.finish("None".into()))
                 })
             }
             Expr::Call(c) => {
@@ -478,9 +579,17 @@ impl<'a> Tr<'a> {
                     self.uses_es = true;
                     return k(self, "es".into(), env);
                 }
+                if p == "NonNull::dangling" {
+                    return k(self, "al".into(), env);
+                }
                 let args: Vec<&Expr> = c.args.iter().collect();
                 self.exprs(&args, env, &mut |me, vs, env| match p.as_str() {
                     "Ok" | "Err" | "Some" => k(me, format!("({} {})", p, vs.join(" ")), env),
+                    "without_provenance_mut" => k(me, vs[0].clone(), env),
+                    "NonNull::new_unchecked" => {
+                        let t = me.fresh("p");
+                        format!("let* {} := nn_new_unchecked {} in\n  {}", t, vs[0], k(me, t.clone(), env))
+                    }
                     _ => {
                         let (o, n) = p.rsplit_once("::").unwrap_or(("", &p));
                         let o = if o == "Self" { me.owner.clone() } else { o.split("::<").next().unwrap().split('<').next().unwrap().to_string() };
@@ -502,6 +611,13 @@ impl<'a> Tr<'a> {
                     (Ty::Usize, "checked_mul") => k(me, format!("(checked_mul md {} {})", vs[0], vs[1]), env),
                     (Ty::Usize, "saturating_mul") => k(me, format!("(saturating_mul md {} {})", vs[0], vs[1]), env),
                     (Ty::Isize, "unsigned_abs") => k(me, format!("(unsigned_abs {})", vs[0]), env),
+                    (Ty::Usize, "get") => k(me, vs[0].clone(), env),
+                    (Ty::Named(s), "addr") if s == "NonNull" => k(me, vs[0].clone(), env),
+                    (Ty::Named(s), "as_mut") if s == "NonNull" => k(me, vs[0].clone(), env),
+                    (Ty::Named(s), "add") | (Ty::Named(s), "sub") if s == "NonNull" => {
+                        let t = me.fresh("p");
+                        format!("let* {} := nn_{} es base bytes {} {} in\n  {}", t, name, vs[0], vs[1], k(me, t.clone(), env))
+                    }
                     (Ty::Opt(_), "ok_or") => k(me, format!("(ok_or {} {})", vs[0], vs[1]), env),
                     (Ty::Named(s), "len") if s == "Vec" => k(me, format!("(vec_len {})", vs[0]), env),
                     (Ty::Named(s), "is_empty") if s == "Vec" => k(me, format!("(vec_len {} =? 0)", vs[0]), env),
@@ -581,6 +697,15 @@ const TARGETS: &[(&str, &str)] = &[
     ("Matrix", "is_elementwise_operation_conformable"),
     ("Matrix", "is_multiplication_like_operation_conformable"),
     ("AxisIndex", "is_out_of_bounds"),
+    // the pointer-level state machines of iter/iter_mut.rs
+    ("IterNthVectorMut", "assemble"),
+    ("IterNthVectorMut", "next"),
+    ("IterNthVectorMut", "next_back"),
+    ("IterNthVectorMut", "size_hint"),
+    ("IterVectorsMut", "assemble"),
+    ("IterVectorsMut", "next"),
+    ("IterVectorsMut", "next_back"),
+    ("IterVectorsMut", "size_hint"),
 ];
 
 fn main() {
@@ -598,7 +723,8 @@ fn main() {
                     // inherent impls, and the MatrixIndex impl of AxisIndex (is_out_of_bounds)
                     let owner = tstr(&i.self_ty).split('<').next().unwrap().to_string();
                     let trait_name = i.trait_.as_ref().map(|(_, p, _)| p.segments.last().unwrap().ident.to_string());
-                    if !(trait_name.is_none() || (trait_name.as_deref() == Some("MatrixIndex") && owner == "AxisIndex")) {
+                    let iter_impl = ptr_owner(&owner) && matches!(trait_name.as_deref(), Some("Iterator") | Some("DoubleEndedIterator"));
+                    if !(trait_name.is_none() || iter_impl || (trait_name.as_deref() == Some("MatrixIndex") && owner == "AxisIndex")) {
                         continue;
                     }
                     for ii in i.items {
@@ -645,7 +771,14 @@ fn main() {
         let mut tr = Tr { cx: &mut cx, owner: o.to_string(), self_mut, uses_es: uses_es0 };
         let body = tr.block(&block.stmts, &mut env, &mut |me, v, _| me.finish(v));
         let _ = tr.self_mut;
-        let es = if uses_es0 { " (es : Z)" } else { "" };
-        println!("Definition G_{}_{} (md : cfg){} {} : res {} :=\n  {}.\n", o, n, es, params.join(" "), coq_ty(&ret), body);
+        let es = if ptr_owner(o) {
+            " (es al base bytes : Z)"
+        } else if uses_es0 {
+            " (es : Z)"
+        } else {
+            ""
+        };
+        let rty = if self_mut && !tstr(&sig.output).contains("mutSelf") { format!("(G{} * {})", o, coq_ty(&ret)) } else { coq_ty(&ret) };
+        println!("Definition G_{}_{} (md : cfg){} {} : res {} :=\n  {}.\n", o, n, es, params.join(" "), rty, body);
     }
 }
